@@ -462,6 +462,54 @@ func genDivision(r *hx.RNG, tier string) (u, v []decimal.Word, cls string) {
 			v[n-2] = decimal.Word(wb - 1)
 		}
 		return u, v, "equal-leading-words"
+	case 9: // recursive division where a block's quotient is short (a few low words of the block) and its estimate one
+		// too large: divisor with an almost empty low half, u = Q*v - small with Q made of random, short and zero blocks.
+		// The product of the block quotient and the low half is then shorter than the low half itself.
+		if r.Bool() {
+			break // (the other half of this slot stays with the random family below)
+		}
+		n = r.Range(100, 200)
+		B := n / 2
+		v = genWords(r, n)
+		v[n-1] = decimal.Word(wb/2 + r.U64()%(wb/2))
+		for i := 0; i < B; i++ {
+			v[i] = 0
+		}
+		for k := r.Range(1, 3); k > 0; k-- {
+			v[r.Intn(3)] = decimal.Word(1 + r.U64()%[]uint64{wb - 1, 1000, 3}[r.Intn(3)])
+		}
+		if r.Chance(30) {
+			v[r.Intn(B)] = decimal.Word(1 + r.U64()%(wb-1))
+		}
+		nb := r.Range(2, 4)
+		q := make([]decimal.Word, nb*B+r.Intn(B))
+		for b := 0; b*B < len(q); b++ {
+			blk := q[b*B : minInt((b+1)*B, len(q))]
+			switch r.Intn(3) {
+			case 0:
+				copy(blk, genWords(r, len(blk)))
+			case 1:
+				blk[r.Intn(minInt(3, len(blk)))] = decimal.Word(1 + r.U64()%(wb-1))
+				if r.Bool() {
+					blk[0] = decimal.Word(1 + r.U64()%(wb-1))
+				}
+			}
+		}
+		qb := wordsToBig(q)
+		if qb.Sign() == 0 {
+			qb.SetInt64(7)
+		}
+		ub := new(big.Int).Mul(qb, wordsToBig(v))
+		switch r.Intn(3) {
+		case 0:
+			ub.Sub(ub, big.NewInt(int64(r.Range(1, 1000))))
+		case 1:
+			ub.Sub(ub, wordsToBig(genWords(r, r.Range(1, 3))))
+		}
+		if ub.Sign() <= 0 {
+			ub = wordsToBig(v)
+		}
+		return bigToWords(ub), v, "recursive-short-block-quotient"
 	case 4: // single word and two-word divisors
 		v = genWords(r, r.Range(1, 2))
 		u = genWords(r, natLen(r, tier))
